@@ -225,7 +225,7 @@ func vpC02Term(ti int) {
 			vpAssert("kind/string/"+cell, m.kind == 's')
 		case "Items":
 			// one member may be written as the member itself
-			vpAssert("kind/array-or-single/"+cell, m.kind == 'a' || (shape == 0 && (m.kind == 's' || m.kind == 'o')))
+			vpAssert("kind/array-or-single/"+cell, m.kind == 'a' || ((shape == 0 || shape == 3) && (m.kind == 's' || m.kind == 'o')))
 		case "NLV":
 			if shape == 2 {
 				vpAssert("kind/language-map/"+cell, m.kind == 'o' && len(m.names) == 2)
